@@ -81,7 +81,7 @@ class Sched:
     def wake(self, obj):
         with self.cv:
             for st in self.threads.values():
-                if st.status == "blocked" and st.waiting_on is obj:
+                if st.status == "blocked" and (st.waiting_on is obj or (isinstance(obj, tuple) and st.waiting_on == obj)):
                     st.status = "parked"
                     st.waiting_on = None
             self.cv.notify_all()
